@@ -3,7 +3,9 @@ package main
 import (
 	"bytes"
 	"fmt"
+	"os"
 	"sync"
+	"sync/atomic"
 	"time"
 )
 
@@ -15,9 +17,11 @@ type traceItem struct {
 	Replay interface{}
 }
 
-// validateTraces feeds recorded traces to TLC in batches (one JVM start per batch). When a batch is
-// rejected it is bisected so that the offending trace is identified; reject is called for each
-// rejected trace with TLC's result. A TLC crash or timeout is an infrastructure problem (exit 2).
+// validateTraces feeds recorded traces to TLC in batches (one JVM start per batch, several JVMs
+// side by side). TLC consumes a linear trace event by event, so when a batch is rejected the
+// number of distinct states it reached names the event - and therefore the item - it could not
+// match; that item is confirmed on its own and validation continues behind it. reject is called
+// for each rejected trace with TLC's result. A TLC crash or timeout is an infrastructure problem.
 func validateTraces(c *Ctx, module, cfg string, items []traceItem, maxEvents int, dfs bool, reject func(it traceItem, res *TLCResult)) (events int) {
 	return validateTracesF(c, module, cfg, nil, items, maxEvents, dfs, reject)
 }
@@ -39,20 +43,61 @@ func validateTracesF(c *Ctx, module, cfg string, extra map[string][]byte, items 
 			return res, false
 		}
 		c.TLC(res)
+		if os.Getenv("VERIF_DEBUG") != "" {
+			fmt.Fprintf(os.Stderr, "debug: validated %d items: ok=%v violated=%q postcond=%v distinct=%d wall=%.1fs\n", len(its), res.OK(), res.Violated, res.Postcond, res.Distinct, res.Wall)
+		}
 		return res, true
 	}
-	var bisect func(its []traceItem)
-	bisect = func(its []traceItem) {
-		res, ok := run(its)
-		if !ok || res.OK() {
-			return
+	var rejected int32
+	const maxRejects = 6
+	var locate func(its []traceItem)
+	locate = func(its []traceItem) {
+		for len(its) > 0 {
+			if atomic.LoadInt32(&rejected) >= maxRejects {
+				return // enough evidence; do not spend the run on locating more
+			}
+			res, ok := run(its)
+			if !ok || res.OK() {
+				return
+			}
+			if len(its) == 1 {
+				atomic.AddInt32(&rejected, 1)
+				reject(its[0], res)
+				return
+			}
+			ev := int(res.Distinct) // index of the first event without matching action (or of the violating state)
+			k, cum := len(its)-1, 0
+			for i, it := range its {
+				cum += it.Events
+				if ev <= cum {
+					k = i
+					break
+				}
+			}
+			found := false
+			for _, cand := range []int{k, k - 1, k + 1} {
+				if cand < 0 || cand >= len(its) {
+					continue
+				}
+				r1, ok1 := run(its[cand : cand+1])
+				if !ok1 {
+					return
+				}
+				if !r1.OK() {
+					atomic.AddInt32(&rejected, 1)
+					reject(its[cand], r1)
+					its = its[cand+1:]
+					found = true
+					break
+				}
+			}
+			if !found {
+				// not reproducible on its own: fall back to halving
+				h := len(its) / 2
+				locate(its[:h])
+				its = its[h:]
+			}
 		}
-		if len(its) == 1 {
-			reject(its[0], res)
-			return
-		}
-		bisect(its[:len(its)/2])
-		bisect(its[len(its)/2:])
 	}
 	var batches [][]traceItem
 	var batch []traceItem
@@ -69,7 +114,7 @@ func validateTracesF(c *Ctx, module, cfg string, extra map[string][]byte, items 
 	if len(batch) > 0 {
 		batches = append(batches, batch)
 	}
-	sem := make(chan struct{}, 6) // each TLC runs with one worker; several JVMs side by side
+	sem := make(chan struct{}, 6)
 	var wg sync.WaitGroup
 	for _, b := range batches {
 		wg.Add(1)
@@ -77,7 +122,7 @@ func validateTracesF(c *Ctx, module, cfg string, extra map[string][]byte, items 
 		go func(b []traceItem) {
 			defer wg.Done()
 			defer func() { <-sem }()
-			bisect(b)
+			locate(b)
 		}(b)
 	}
 	wg.Wait()
@@ -86,7 +131,7 @@ func validateTracesF(c *Ctx, module, cfg string, extra map[string][]byte, items 
 
 func rejectText(res *TLCResult) string {
 	if res.Violated != "" {
-		return fmt.Sprintf("invariant %s of the specification fails on the recorded execution after %d events", res.Violated, res.Distinct-1)
+		return fmt.Sprintf("invariant %s of the specification fails on the recorded execution after %d events", res.Violated, maxI64(res.Distinct-1, 0))
 	}
 	return fmt.Sprintf("the recorded execution is not a behaviour of the specification: event %d has no matching action", res.Distinct)
 }
